@@ -561,4 +561,17 @@ theorem makePianoroll_eq_some (o : Opts) (notes : List Note) (r : Roll) :
           subst hN'
           exact absurd (all_eq_true.mpr hb) h3
 
+theorem cell_congr (r r' : Roll) (h1 : r.rows = r'.rows) (h2 : r.cols = r'.cols)
+    (h3 : r.rowStart = r'.rowStart) (h4 : r.binary = r'.binary)
+    (h5 : ∀ p j, keyMax r.fill p j = keyMax r'.fill p j) : ∀ p j, r.cell p j = r'.cell p j := by
+  intro p j
+  unfold Roll.cell
+  rw [h1, h2, h3, h4, h5]
+
+/-- `pr_idx[idx.argsort()]` is the table of index rows in input order -/
+theorem idxOf_eq (o : Opts) (notes : List Note) :
+    PianoRoll.idxOf o notes = notes.map (idxRow o (lowestOf o notes) (t0Of o notes) (rowStartOf o)) := by
+  unfold PianoRoll.idxOf
+  exact unsort_sorted (idxRow o (lowestOf o notes) (t0Of o notes) (rowStartOf o)) notes
+
 end C13
